@@ -246,7 +246,9 @@ class Tap(object):
         """authenticity without looking at the implementation: D is authentic iff a datagram G recorded at
         the honest peer's tap for this session is a prefix of D (D == G or G + trailing bytes)"""
         if key is not None:
-            G = self.genuine_by_key.get(key, {}).get(d[:20])
+            # (both directions share the key: only what the OTHER end emitted - the direction tag says so - is authentic for e)
+            from mon.engines.adversary import TO_SERVER, TO_CLIENT
+            G = self.genuine_by_key.get(key, {}).get(d[:20]) if d[:4] == (TO_SERVER if e.role == "server" else TO_CLIENT) else None
         elif e.role == "server":
             G = self.genuine_hello.get(("server", e.conn.addr), {}).get(d[:20])
         else:
